@@ -779,6 +779,10 @@ class VarsManager(object):
                 has_constrains = True
             if k + "i" in self.bnd_dic:
                 has_constrains = True
+            if k + "deltar" in self.variables:
+                # CP factor (r + c deltar) e^{i (phi + c deltai)}: r -> -r, phi -> phi + pi
+                # alone is another amplitude
+                has_constrains = True
             for name in [k + "r", k + "i"]:
                 # fixed or (just un-)bounded components must not be moved
                 if name in skip or name not in self.trainable_vars:
